@@ -297,11 +297,14 @@ META = {
               'the signer\'s output for exactly the dump of the entries written (C14_signed_content). That this output verifies with the signing key is GnuPG behaviour, exercised with real gpg.',
    level_note='About Model/Update.v save_manifest; the signed flag of a loaded Manifest is covered by C04/C05; the truncation of the file before a failing signer runs is visible in the model (write_file first).'),
  'C18': dict(engine='coq+cli', design_ref='DESIGN.md section 5 C18',
-   technique='Coq totality theorems (parser, entry compatibility) + in-process CLI runs over the generators of C01/C03/C09 with the outcome class compared to the executable model',
+   technique='Coq totality theorems (parser, entry compatibility, the whole reading side of the loader) + in-process CLI runs over the generators of C01/C03/C09 with the outcome class compared to the executable model',
    level_text='Proved in Coq for all inputs: every text is parsed or rejected with ManifestSyntaxError / ManifestUnsignedData, accepted entries are sane (C18_parser_total, C18_accepted_entries_sane); '
-              'the compatibility check of two entries for one path is total on parser-shaped entries, duplicate IGNORE included (C18_compatibility_total). PARTIAL: the model keeps internal-error '
-              'results to mirror the code; that none is reachable from verify / update / create is decided by CLI runs whose outcome class (exit status or escaping exception) is compared with the '
-              'model; reachable ones are known findings (D8, D12, D13, D21).',
+              'the compatibility check of two entries for one path is total on parser-shaped entries, duplicate IGNORE included (C18_compatibility_total); no reading operation - constructing the '
+              'loader, loading the Manifest chain, entry lookups, single-path and directory verification with any failure handler and last_mtime, in any order on one loader object - ends with an '
+              'internal error for any tree, fault placement, Manifest texts, hash library, decompressor and OpenPGP environment, except the ValueError / UnicodeError of a path holding NUL or a lone '
+              'surrogate (findings D23, D13) or of Manifest bytes that are not UTF-8 (C18_reading_never_internal, C18_single_file_check_never_internal; Proofs/ReadSafe.v, 800 lines). PARTIAL: the '
+              'model keeps internal-error results to mirror the code; for update / save / create that none but the listed findings (D8, D11, D12, D21, D25) is reachable is decided by CLI runs '
+              'whose outcome class (exit status or escaping exception) is compared with the model.',
    level_note='About Model/{Text,Entry,Verify}.v; cli.py:602-634 (exception to exit status) is exercised, not modelled; zlib.error/EOFError from damaged compressed Manifests are reported as an observation (not UTF-8 text).'),
  'C19': dict(engine='coq+cli', design_ref='DESIGN.md section 5 C19',
    technique='Coq theorems about the translated profile policy on repository-shaped paths of arbitrary names + gemato create/update runs on generated repositories checked against an independent policy statement and the model',
